@@ -24,7 +24,7 @@ ASSUMPTIONS = [
 ]
 MUST = ["reconnect_after_failure", "reconnect_after_close", "reconnect_after_peerdrop", "reconnect_after_loop_change",
         "keepalive_reuse", "no_keepalive_closed_after_request", "final_close_zero", "max_one_checked",
-        "queued_caller_cancelled"]
+        "queued_caller_cancelled", "concurrent_close_and_requests"]
 EXHAUSTIVE = {"quick": True, "thorough": True}
 
 REQ_CLASSES = {
@@ -238,6 +238,65 @@ def run_cancel_case(sc, part):
     return vs
 
 
+def concurrent_scenarios():
+    """(a) close() is called while a slow request is in flight; (b) two requests overlap; (c) keep-alive is switched off between
+    two requests.  Whatever the order: never two sockets, nothing open after the final close()."""
+    out = []
+    for transport in ("udp", "tcp"):
+        framing = "rtu" if transport == "udp" else "tcp"
+        for ka in (False, True):
+            for d in (0.3, 0.6):
+                for close_at in (0.0, 0.1, d, d + 0.1):
+                    out.append({"transport": transport, "framing": framing, "keep_alive": ka, "T": 1, "R": 1,
+                                "by_reg": {811: [["delay", d]], 812: [["delay", 0.2]], 813: ["now"]}, "after": "now", "gc": True,
+                                "actions": ["close-during-request", d, close_at], "healthy_reg": 813, "expect_zero_at": 4.0,
+                                "tasks": [{"start": 0.0, "steps": [["read", 811, 2]]},
+                                          {"start": close_at, "steps": [["close"]] if close_at != d else [["read", 812, 2], ["close"]]},
+                                          {"start": 3.0, "steps": [["close"], ["sleep", 1.5], ["read", 813, 2], ["close"]]}]})
+            out.append({"transport": transport, "framing": framing, "keep_alive": True, "T": 1, "R": 1,
+                        "by_reg": {811: ["now"], 812: ["now"], 813: ["now"]}, "after": "now", "gc": True,
+                        "actions": ["keep-alive-switched-off", ka], "healthy_reg": 813, "expect_zero_at": 4.0,
+                        "tasks": [{"start": 0.0, "steps": [["read", 811, 2], ["api", "set_keep_alive", False], ["read", 812, 2]]},
+                                  {"start": 3.0, "steps": [["close"], ["sleep", 1.5], ["read", 813, 2], ["close"]]}]})
+    return out
+
+
+def run_concurrent_case(sc, part):
+    run = engine.run_scenario(sc, quiesce=False)
+    part.evaluations += 1
+    tr, ka = sc["transport"], sc["keep_alive"]
+    ctx = f"{sc['actions']} keep_alive={ka}"
+    vs = []
+    if run.stop:
+        vs.append((f"C10/{tr}/hang", f"{ctx}: {run.stop}"))
+    live = {}
+    zero_checked = False
+    for e in run.events:
+        if e[0] >= sc["expect_zero_at"] and not zero_checked:
+            zero_checked = True
+            if live:
+                vs.append((f"C10/{tr}/open-after-close", f"{ctx}: sockets {sorted(live)} still open one second after close() and all requests ended"))
+        if e[1] == "open":
+            live[e[2]] = e[0]
+            if len(live) > 1:
+                vs.append((f"C10/{tr}/two-open-sockets", f"{ctx}: sockets {sorted(live)} open at t={e[0]}"))
+        elif e[1] == "close":
+            live.pop(e[2], None)
+    if not run.stop and run.end_live:
+        vs.append((f"C10/{tr}/leak-at-end", f"{ctx}: sockets {sorted(run.end_live)} still open after the final close()"))
+    healthy = [c for c in run.calls if c["step"][0] == "read" and c["step"][1] == 813]
+    if not run.stop and (not healthy or healthy[0]["outcome"] != "ok"):
+        vs.append((f"C10/{tr}/next-request-fails", f"{ctx}: healthy request ended {healthy[0]['outcome'] if healthy else 'never ran'}"))
+    for w in run.warnings:
+        if w.startswith("ResourceWarning"):
+            vs.append((f"C10/{tr}/resource-warning", f"{ctx}: {w[:160]}"))
+    part.count("concurrent_close_and_requests")
+    part.see(repr((tr, ka, str(sc["actions"]))))
+    for key, msg in vs:
+        part.violate(key, msg, {"concurrent": True, "scenario": sc, "events": engine.jsonable_events(run.events, 120)})
+    return vs
+
+
 def plan(tier, seed):
     specs = [{"cancel": True}]
     depth = 3 if tier == "quick" else 4
@@ -261,6 +320,8 @@ def run_shard(spec):
                         for b_start in (0.0, 0.05):
                             for cancel_at in (0.06, 0.1, 0.29, 0.31, 0.95, 1.05):
                                 run_cancel_case(cancel_scenario(transport, ka, R, a_class, cancel_at, b_start), part)
+        for sc in concurrent_scenarios():
+            run_concurrent_case(sc, part)
         return part
     for d in range(0, spec["depth"]):
         for rest in itertools.product(ACTIONS, repeat=d):
@@ -276,5 +337,5 @@ def run_shard(spec):
 
 def replay(case):
     part = Part()
-    vs = (run_cancel_case if case.get("cancel") else run_case)(case["scenario"], part)
+    vs = (run_concurrent_case if case.get("concurrent") else run_cancel_case if case.get("cancel") else run_case)(case["scenario"], part)
     return [{"key": k, "msg": m} for k, m in vs]
